@@ -169,6 +169,11 @@ pub fn is_ref_url(url: &str) -> bool {
         || url.starts_with('?'))
 }
 
+// what a wiki link names is a note even when it reads like an address: "[[Project:Alpha]]"
+pub fn is_wiki_ref_url(url: &str) -> bool {
+    is_ref_url(url) || (has_scheme(url) && !url.ends_with('/'))
+}
+
 // an address with a scheme. A colon that is followed by white space (or by nothing) belongs to
 // a name ("Re: budget", "TODO: x"); an address may hold a space further on, it is then
 // written between angle brackets (<https://example.com/My Page>)
